@@ -138,6 +138,55 @@ def build_graph(case):
     return set_orders(H, case.get('orders', 'asis'), rng)
 
 
+def edit_graph(G, edit):
+    """in-place edit of a graph between two layouts of the SAME object; returns a description or None
+    (None = this edit is not possible on this graph; the history is then skipped)"""
+    op, pick = edit['op'], int(edit['pick'])
+    nodes = list(G.nodes)
+    ints = all(isinstance(x, int) for x in nodes)
+    if op == 'add_edge':
+        pairs = [(u, v) for i, u in enumerate(nodes) for v in nodes[i + 1:] if not G.has_edge(u, v)]
+        if not pairs:
+            return None
+        u, v = pairs[pick % len(pairs)]
+        G.add_edge(u, v, order=1)
+        return ['add_edge', str(u), str(v)]
+    if op == 'remove_edge':
+        bridges = set(frozenset(e) for e in nx.bridges(G))
+        cand = [e for e in G.edges if frozenset(e) not in bridges]
+        if not cand:
+            return None
+        u, v = cand[pick % len(cand)]
+        G.remove_edge(u, v)
+        return ['remove_edge', str(u), str(v)]
+    if op == 'add_node':
+        new = (max(nodes) + 1) if ints else 'zz_new'
+        u = nodes[pick % len(nodes)]
+        G.add_node(new, element='C')
+        G.add_edge(u, new, order=1)
+        return ['add_node', str(new), str(u)]
+    if op == 'remove_node':
+        arts = set(nx.articulation_points(G))
+        cand = [x for x in nodes if x not in arts]
+        if not cand or G.number_of_nodes() <= 2:
+            return None
+        x = cand[pick % len(cand)]
+        G.remove_node(x)
+        for n in G.nodes:                      # stereo annotations that mention the removed node go with it
+            ez = G.nodes[n].get('ez_isomer')
+            if ez is not None:
+                keep = [it for it in ez if x not in it[:4]]
+                if keep:
+                    G.nodes[n]['ez_isomer'] = keep
+                else:
+                    del G.nodes[n]['ez_isomer']
+        return ['remove_node', str(x)]
+    raise ValueError(op)
+
+
+EDITS = ['add_edge', 'remove_edge', 'add_node', 'remove_node']
+
+
 def v2(p):
     return '(%s, %s)' % (fhex(p[0]), fhex(p[1]))
 
@@ -181,6 +230,11 @@ class C19(common.Prop):
                 dict(base, kind='layout', shape='chain', n=5, relabel='identity', db=1, orders='zeros'),
                 dict(base, kind='layout', shape='ring', n=6, relabel='permute', db=1.5, orders='none'),
                 dict(base, kind='layout', shape='fused', n=6, relabel='identity', db=1, orders='mixed'),
+                # histories on ONE graph object: layout, edit the graph, layout again (the second result is judged)
+                dict(base, kind='layout', shape='chain', n=5, relabel='identity', db=1, edit={'op': 'add_edge', 'pick': 1}),
+                dict(base, kind='layout', shape='ring', n=6, relabel='strings', db=2, edit={'op': 'remove_node', 'pick': 2}),
+                dict(base, kind='layout', shape='fused', n=6, relabel='identity', db=1.5, edit={'op': 'remove_edge', 'pick': 3}),
+                dict(base, kind='layout', shape='molecule', n=0, s=EZ[0], relabel='identity', db=1, edit={'op': 'add_node', 'pick': 4}),
                 dict(base, kind='rot', shape='chain', n=5, relabel='identity', pick=1, angle=120),
                 dict(base, kind='rot', shape='ring', n=6, relabel='strings', pick=2, angle=240),
                 dict(base, kind='rot', shape='fused', n=6, relabel='identity', pick=3, angle=120)]
@@ -202,6 +256,8 @@ class C19(common.Prop):
             c['orders'] = rng.choice(ORDERS)
             if rng.random() < 0.75:
                 c['kind'] = 'layout'
+                if rng.random() < 0.3:
+                    c['edit'] = {'op': rng.choice(EDITS), 'pick': rng.randrange(1000)}
                 c['db'] = rng.choice(BONDS) if rng.random() < 0.8 else round(rng.uniform(0.01, 50), 3)
             else:
                 c['kind'] = 'rot'
@@ -218,10 +274,42 @@ class C19(common.Prop):
             return {'skip': 'build:' + type(exc).__name__}
         if G.number_of_edges() == 0 or not nx.is_connected(G):
             return {'skip': 'outside-domain'}        # the property speaks about connected graphs with a bond
+        if case['kind'] == 'layout' and case.get('edit'):
+            return self._run_history(case, G)
         ids = {x: i for i, x in enumerate(G.nodes)}
         if case['kind'] == 'layout':
             return self._run_layout(case, G, ids)
         return self._run_rot(case, G, ids)
+
+    def _run_history(self, case, G):
+        """layout(G); edit G in place; layout(G) again on the SAME object: the second result is judged.
+        The same graph content as a FRESH object is laid out too (reported in the replay for comparison)."""
+        import cgsmiles.graph_layout as gl
+        state = np.random.get_state()
+        try:
+            np.random.seed(int(case['npseed']))
+            gl.vespr_layout(G, default_bond=case['db'])
+        except Exception as e:
+            ids = {x: i for i, x in enumerate(G.nodes)}
+            return {'nodes': list(ids.values()), 'edges': [[ids[u], ids[v]] for u, v in G.edges], 'db': float(case['db']),
+                    'exc': 2, 'exc_name': 'first layout:' + type(e).__name__, 'pre': [], 'lens': [], 'post': [], 'zero': False}
+        finally:
+            np.random.set_state(state)
+        try:
+            done = edit_graph(G, case['edit'])
+        except Exception as exc:
+            return {'skip': 'edit:' + type(exc).__name__}
+        if done is None:
+            return {'skip': 'edit-not-applicable'}
+        if G.number_of_edges() == 0 or not nx.is_connected(G):
+            return {'skip': 'outside-domain'}
+        ids = {x: i for i, x in enumerate(G.nodes)}
+        fresh = copy.deepcopy(G)
+        out = self._run_layout(case, G, ids)
+        out['history'] = ['vespr_layout(G)', done, 'vespr_layout(G)  <- judged']
+        fr = self._run_layout(case, fresh, ids)
+        out['fresh_object_clause'] = self.python_oracle({'kind': 'layout'}, fr)
+        return out
 
     def _run_layout(self, case, G, ids):
         import cgsmiles.graph_layout as gl
@@ -341,7 +429,8 @@ class C19(common.Prop):
         if 'skip' in impl:
             return 'skipped:' + impl['skip']
         z = ':zero-order-edge' if impl.get('zero') else ''
-        return '%s:%s:%s:%s%s' % (case['kind'], case['shape'], case['relabel'], case.get('orders', 'asis'), z)
+        h = ':history-' + case['edit']['op'] if case.get('edit') else ''
+        return '%s:%s:%s:%s%s%s' % (case['kind'], case['shape'], case['relabel'], case.get('orders', 'asis'), z, h)
 
     def coq_case(self, case, impl):
         if 'skip' in impl:
